@@ -109,7 +109,7 @@ def duration_as_secs_f32(m, n):
     if mode == 'uf':
         S = z3.Function('DUR_AS_F32', z3.BitVecSort(128), F32)
         r = S(n)
-        m.assume(z3.And(z3.Not(z3.fpIsNaN(r)), z3.Not(z3.fpIsInf(r)), z3.fpGEQ(r, z3.FPVal(0.0, F32))))
+        m.assume(z3.And(z3.Not(z3.fpIsNaN(r)), z3.Not(z3.fpIsInf(r)), z3.fpGEQ(r, z3.FPVal(0.0, F32)), z3.Not(z3.fpIsNegative(r))))     # never -0.0
         m.assume(z3.Implies(n == 0, z3.fpIsZero(r)))
         return Sc('f32', r)
     secs = z3.Extract(63, 0, z3.UDiv(n, z3.BitVecVal(NANOS, 128)))
